@@ -9,7 +9,7 @@ from .c01 import ALPHA, tol_time
 
 MANIFEST = dict(
     technique="Lean 4 proof (induction over the contiguity loop and over piece lists; label algebra over Q) + differential correspondence of transforms.concatenate on real pieces produced by real slicing, including perturbed (gap/overlap/swap/rate/bandwidth/type/label) sequences",
-    level_text="concatenate model proved: split-then-concatenate along time (any cut points, empty pieces, any pattern of missing start times) and along frequency reproduces ledger and labels for EVERY signal and cut list; grouping-independence (associativity); rejection of gaps/overlaps/swaps beyond the Time tolerance, of type mixes and of rate mismatches; real concatenate compared with the model piece-for-piece and with the original signal",
+    level_text="the arithmetic of concatenate (reference start, expected start of later pieces, new centre, contiguity difference, label tolerance), translated symbolically from the source on every run, is the model's (C10_source_formulas); concatenate model proved: split-then-concatenate along time (any cut points, empty pieces, any pattern of missing start times) and along frequency reproduces ledger and labels for EVERY signal and cut list; grouping-independence (associativity); rejection of gaps/overlaps/swaps beyond the Time tolerance, of type mixes and of rate mismatches; real concatenate compared with the model piece-for-piece and with the original signal",
     level_note="Trusted: Lean kernel (+3 std axioms); hand model PbModel/Concat.lean tied by correspondence; astropy u.isclose/u.allclose (rtol 1e-5) and Time.isclose (2 eps day) semantics taken as parameters; np.concatenate appends in order (checked on every case by comparing data with the original)",
 )
 
